@@ -35,6 +35,21 @@ type gnode struct {
 }
 
 // where is String() called from: inside (*ConsistentHash).Remove, inside AddWithReplicas
+func inGetCall() bool {
+	pcs := make([]uintptr, 32)
+	n := runtime.Callers(2, pcs)
+	frames := runtime.CallersFrames(pcs[:n])
+	for {
+		f, more := frames.Next()
+		if strings.HasSuffix(f.Function, "hash.(*ConsistentHash).Get") {
+			return true
+		}
+		if !more {
+			return false
+		}
+	}
+}
+
 func callSite() (inRemove, inAdd bool) {
 	pcs := make([]uintptr, 32)
 	n := runtime.Callers(2, pcs)
@@ -112,6 +127,7 @@ func inInnerReprOfGet() bool {
 // inside the hashing of its virtual nodes.  At HEAD that is inside the write-locked insertion: every
 // other call blocks; a tree that hashes outside the lock lets them through.
 type hashGate struct {
+	inGet   bool // park the first evaluation made by Get (the key's hash) instead of AddWithReplicas'
 	armed   int32
 	entered chan struct{}
 	release chan struct{}
@@ -121,7 +137,14 @@ var curGate atomic.Pointer[hashGate]
 
 func gatedHash(data []byte) uint64 {
 	if g := curGate.Load(); g != nil && atomic.LoadInt32(&g.armed) == 1 {
-		if inRemove, inAdd := callSite(); inAdd && !inRemove && atomic.CompareAndSwapInt32(&g.armed, 1, 0) {
+		hit := false
+		if g.inGet {
+			hit = inGetCall()
+		} else {
+			inRemove, inAdd := callSite()
+			hit = inAdd && !inRemove
+		}
+		if hit && atomic.CompareAndSwapInt32(&g.armed, 1, 0) {
 			close(g.entered)
 			<-g.release
 		}
@@ -368,7 +391,16 @@ func runConc(c Case) (out Out) {
 				out.Err = "bad lookup step"
 				return
 			}
+			// "g": the key is a Stringer that parks in innerRepr (only on shared slots); "gh": any key, the lookup
+			// is held when Get evaluates the hash function on it (at HEAD: under the read lock, before the ring read)
+			byHash := lst[0].(string) == "gh"
 			key := &gkey{text: c.Probes[p].V, entered: make(chan struct{}), release: make(chan struct{})}
+			var lookupKey any = key
+			if byHash {
+				hg := &hashGate{inGet: true, armed: 1, entered: key.entered, release: key.release}
+				curGate.Store(hg)
+				lookupKey = mk(c.Probes[p])
+			}
 			type gr struct{ r int }
 			gdone := make(chan int, 1)
 			go func() {
@@ -379,7 +411,7 @@ func runConc(c Case) (out Out) {
 					}
 					gdone <- r
 				}()
-				v, found := h.Get(key)
+				v, found := h.Get(lookupKey)
 				if !found {
 					r = -1
 				} else if g, isg := v.(*gnode); isg {
@@ -425,6 +457,9 @@ func runConc(c Case) (out Out) {
 					out.Err = "a released lookup did not return"
 					return
 				}
+			}
+			if byHash {
+				curGate.Store(nil)
 			}
 			what, ok = stp.what()
 			gob = []int{p, ans, ovl, ran}
